@@ -603,6 +603,13 @@ def joinOpts (st : Store) (t rhs : Rel) (pred : Pred) (o : Opts) : Except Err Re
   | .error e => .error e
   | .ok j => applyOp st defaultFuel (.pj ⟨j, rhs, false⟩) t o
 
+/-- `Join(pred, max_columns=S).partial(rhs).apply(t, <every option>)`: automatic common columns,
+capped by `S`. -/
+def joinMax (st : Store) (t rhs : Rel) (pred : Pred) (cap : Cols) (o : Opts) : Except Err Res :=
+  match JoinOp.make pred [] (some cap) with
+  | .error e => .error e
+  | .ok j => applyOp st defaultFuel (.pj ⟨j, rhs, false⟩) t o
+
 /-- `Join(pred, min_columns=S, max_columns=S).partial(rhs).apply(t, backtrack=…, transfer=…)`:
 a join with explicitly given common columns. -/
 def joinOn (st : Store) (t rhs : Rel) (pred : Pred) (common : Cols) (backtrack transfer : Bool) :
